@@ -762,6 +762,9 @@ func (w *World) verifyFunc(con *Contract) (fr *FuncResult) {
 		if mt, ok := t.Underlying().(*types.Map); ok {
 			k := sanitize(mt.String())
 			e.stablePrefixes = append(e.stablePrefixes, "has_"+k, "val_"+k, "len_"+k)
+		} else if st, ok := t.(*types.Slice); ok {
+			// the element arrays of this slice type
+			e.stablePrefixes = append(e.stablePrefixes, "arr_"+sanitize(st.Elem().String()))
 		} else {
 			e.stablePrefixes = append(e.stablePrefixes, sanitize(t.String()))
 		}
@@ -840,6 +843,18 @@ func (e *Exec) axioms() {
 		term := env.evalBool(ax.Expr)
 		e.axiomTerms = append(e.axiomTerms, axiomTerm{idx: i, term: term})
 	}
+}
+
+// model axioms added on demand (once per function run)
+func (e *Exec) axiomOnce(name, term string) {
+	if e.axiomNames == nil {
+		e.axiomNames = map[string]bool{}
+	}
+	if e.axiomNames[name] {
+		return
+	}
+	e.axiomNames[name] = true
+	e.axiomTerms = append(e.axiomTerms, axiomTerm{idx: 100000 + len(e.axiomTerms), term: term})
 }
 
 type axiomTerm struct {
